@@ -193,7 +193,12 @@ class Module:
         # Checks out! Name `val` and add it to our type-based containers.
         prior = val.name
         val.name = key
-        _add(module=self, val=val)
+        try:
+            _add(module=self, val=val)
+        except Exception:
+            # A refused addition leaves `val` as it was. (It may be one of our attributes, under its `prior` name.)
+            val.name = prior
+            raise
         if prior is not None and prior != key and self.namespace.get(prior, None) is val:
             # `val` was one of our attributes already, under another name, e.g. `m.b = m.a`.
             # An object has one name: it moves. (Kept under both, it would be exported twice, as two `key`s.)
